@@ -28,6 +28,7 @@ struct NodeRec {
   int runsThisRound = 0;
   bool running = false;
   bool modelComplete = false;
+  char cell = 0; // C10: the node's output; written by its body, read by dependents and by the caller afterwards
 };
 
 struct GRun {
@@ -59,7 +60,9 @@ static void nodeBody(int id) {
       snprintf(cls, sizeof cls, "%s:%s:ran-before-predecessor", g.exec, g.phase);
       sim_fail(cls, "node %d started before its incomplete predecessor %d finished", id, p);
     }
+    raceR(&pr.cell, "graph-node-output");
   }
+  raceW(&n.cell, "graph-node-output");
   n.running = true;
   sim_event(9, id, g.round);
   sim_work(1 + (int)(sim_step() % 3));
@@ -120,6 +123,7 @@ static void execute(Builder<G>& b, dispenso::ThreadPool& pool, int which, const 
   for (auto& n : g.nodes) {
     n.runsThisRound = 0;
     n.running = false;
+    raceW(&n.cell, "graph-node-output"); // the caller prepares the nodes' inputs between executions
   }
   switch (which) {
     case 0: {
@@ -161,6 +165,7 @@ static void checkAfter(Builder<G>& b, const std::vector<bool>& expectRun) {
     NodeRec& n = g.nodes[i];
     if (!n.alive)
       continue;
+    raceR(&n.cell, "graph-node-output");
     int want = expectRun[i] ? 1 : 0;
     if (n.runsThisRound != want) {
       snprintf(cls, sizeof cls, "%s:%s:%s", g.exec, g.phase, n.runsThisRound > want ? "extra-node-ran" : "node-not-run");
